@@ -17,7 +17,7 @@ RULE = ("(a) FakeBLE -> FakeBLE over the simulated air on all three channels and
         "advertised at the service's resolution, nothing queued for inconsistent length/CRC, no "
         "exception from available(), read() in arrival order. Non-trivial: a packet was decoded "
         "or rejected by the reference; distinct = (packet class, field shapes, channel).")
-RULE += (" Later rounds added: reserved length bits, per-packet TX power without re-toggling, damaged repeats of a packet the receiver has just accepted, URLs with several expansion codes, byte / multi-byte names and the complete-name type, a with boundary after the channel was assigned, the air kind on all three channels, zero-length names, temperatures whose sign alternates from packet to packet, a foreign capture (noise / an over-long advertisement) at the head of the RX FIFO with the known packet behind it.")
+RULE += (" Later rounds added: queued packets read only after the receiving object's with block was left (another object using the radio meanwhile); reserved length bits, per-packet TX power without re-toggling, damaged repeats of a packet the receiver has just accepted, URLs with several expansion codes, byte / multi-byte names and the complete-name type, a with boundary after the channel was assigned, the air kind on all three channels, zero-length names, temperatures whose sign alternates from packet to packet, a foreign capture (noise / an over-long advertisement) at the head of the RX FIFO with the known packet behind it.")
 REQUIRED = {"valid_decoded_equal": 600, "corrupted_not_queued": 1500, "available_never_raises": 3000,
             "read_order": 200, "service_values": 400}
 BUDGET = {"quick": 480, "thorough": 900}
@@ -279,6 +279,14 @@ def run_case(ctx, case):
                 return
             if not rr.rx_fifo:
                 break
+        if (case["seed"] >> 4) % 3 == 0:
+            # the application reads later: the receiving object's `with` block is left first (another
+            # object gets the radio for a while) - what available() queued is still there afterwards
+            rx.__exit__(None, None, None)
+            if (case["seed"] >> 6) % 2:
+                with rig.driver(rr) as other:
+                    other.channel = 40
+            ctx.clause("read_after_the_with_block_was_left")
         while True:
             q = rx.read()
             if q is None:
